@@ -110,6 +110,11 @@ def finishGroup (i : Info) (st : St) (de : Option RtErr) : Option RtErr :=
 def typeErr (i : Info) (expected : String) (v : Val) : RtErr :=
   .type i expected v.goTypeName
 
+/-- what an aggregate function is called with: all matches, or the elements of the single
+    matched array when the parameter path is not a value group -/
+def aggArgs (vg : Bool) (r0 : Val) (all : List Val) : List Val :=
+  if vg then all else (match r0 with | .arr xs => xs | _ => all)
+
 /-! ### subscripts (hand transcription; `Gen.SliceGo` is the regenerated one, tied by C11) -/
 
 def normPos (value len : Int) : Int :=
@@ -174,6 +179,15 @@ def cmpValidatorTy : Cmp → Option LitTy
   | .deepEq => none
   | .regex _ => some .str
   | _ => some .num
+
+/-- `leftFound := q.comparator.validate(leftValues)`: found flag, the list after the
+    validator's in-place edits, the write log -/
+def valStep (c : Cmp) (lv : VL) (st : St) : Bool × VL × St :=
+  match cmpValidatorTy c with
+  | none => (validateAny lv.cells, lv, st)
+  | some ty =>
+    let (f, cells, w) := validateTy ty lv.cells
+    (f, { lv with cells := cells }, st.wrote lv.org w)
 
 /-- Go's `a == b` on interface values of the types that can reach it -/
 def ifaceEq (a b : Val) : M Bool :=
